@@ -250,9 +250,9 @@ impl StorageConfig for NdarrayConfig {
         }
 
         for ((name, extra_dims), (name2, item_type)) in settings
-            .stat_dims_all(math)
+            .data_dims_all(math)
             .into_iter()
-            .zip(settings.stat_types(math).into_iter())
+            .zip(settings.data_types(math).into_iter())
         {
             assert!(name == name2);
             if ["draw", "chain"].contains(&name.as_str()) {
